@@ -330,7 +330,9 @@ class YP(object):
     def findall(self, template, goal, bag):
         '''findall/3 returns values according to template into bag, that satisfy goal.'''
         q = self.call(goal)
-        results = self.makelist([ get_value(template) for r in q ])
+        # each result is a copy of the template as instantiated by that answer; variables
+        # that are still unbound in it are new variables
+        results = self.makelist([ rename_variables([template])[0] for r in q ])
         for y in unify(bag, results):
             yield False
 
